@@ -74,6 +74,14 @@ def setup(vc, paused_cmd=None, paused_gen=None, queue=()):
     return lay, log, cmds, gens
 
 
+def _is_bound_to(vc, v, obj, name):
+    """v is the bound method obj.<name>"""
+    if vc.mode == "sym":
+        from pyvc.core import SBound
+        return isinstance(v, SBound) and v.self_ is obj and v.func.qualname.split(".")[-1] == name
+    return getattr(v, "__self__", None) is obj and getattr(getattr(v, "__func__", None), "__name__", "") == name
+
+
 def queue_items(vc, lay):
     q = lay._paused_event_queue
     return list(q.fields["_items"].items) if vc.mode == "sym" else list(q)
@@ -207,7 +215,10 @@ def s_next_decided(vc):
         vc.ensure("replayed_in_arrival_order_exactly_once", len(ghosts) == len(exp) and all(isinstance(g, (STuple, tuple)) and g[1] is child and g[2] is e for g, e in zip(ghosts, exp)))
         vc.ensure("buffer_cleared", len(evs) == 0)
         f = nl.fields if vc.mode == "sym" else nl.__dict__
-        vc.ensure("rebinds_all_three", all(k in f for k in ("handle_event", "_handle_event", "_handle")))
+        # later events (directly, via a queued replay in Layer.__continue, or via a stale reference) must enter the chosen
+        # layer through its *handle_event* (which does the pausing/queueing), never through its raw _handle_event
+        for k in ("handle_event", "_handle_event", "_handle"):
+            vc.ensure(f"rebinds.{k}.to_child_handle_event", k in f and _is_bound_to(vc, f[k], child, "handle_event"))
     else:
         vc.ensure("nothing_forwarded", ghosts == [])
         vc.ensure("buffered_in_order", len(evs) == n + 1 and all(a is b for a, b in zip(evs, old + [ev])))
